@@ -233,6 +233,13 @@ func runWorker(bin string, j *job, jobPath string, race bool, timeout time.Durat
 	}
 	cmd := exec.Command(bin, "-test.run", "^TestWorker$", "-test.timeout", "0", "-test.count", "1")
 	cmd.Env = append(env(), "VERIF_JOB="+jobPath)
+	if os.Getenv("GOMAXPROCS") == "" {
+		// one OS thread of Go code per worker process: the simulator releases one
+		// goroutine at a time anyway, and hand-offs between goroutines on one P
+		// avoid a futex round trip each (measured: 3x the runs per second); the
+		// driver runs one worker process per core
+		cmd.Env = append(cmd.Env, "GOMAXPROCS=1")
+	}
 	if race {
 		cmd.Env = append(cmd.Env, "GORACE=halt_on_error=1 history_size=3")
 	}
